@@ -68,3 +68,23 @@ Example C08_refuted_D7 :
   map (fun it => (item_id it, p_hist (item_head it), item_gpath it)) (d_collected (getd (fst (give 40 0 wD7 5 itD7)) 11)) = [] /\
   d_received (getd (fst (give 40 0 wD7 5 itD7)) 11) = 1.
 Proof. vm_compute. repeat split; reflexivity. Qed.
+
+(** Finding D9 (C08, "the device idle longest receives the part"): the original PartHandler.notify_upstream_of_available_space
+    started the waiting-for-part clock unconditionally ([stamp_v0]); unblocking the input of a device that is still processing a part
+    stamped it "waiting since now", and when it became empty later the stamp was kept.  Device 5 below processes a part until 36 and
+    has its input unblocked at 32; device 6 has been idle since 32.  Original: 5 counts as idle since 32 and, listed first, is offered
+    the next part before 6 (the ranking of [sorted_down] is stable).  Repaired ([wait_if_empty]): 5 counts as idle since 36, 6 goes first. *)
+Definition stamp_v0 (nw : Z) (w : fw) (d : Z) : fw := updd w d (dev_set_wait nw true false).
+
+Definition wD9 : fw :=
+  mkFw [(1, (blank_dev KSource) <| d_down := [5; 6] |>);
+        (5, (blank_dev KHandler) <| d_up := [1] |> <| d_part := Some (ISingle (mkPart 11 0 8 [1; 5] [])) |> <| d_wait_since := None |>);
+        (6, (blank_dev KHandler) <| d_up := [1] |> <| d_wait_since := Some 32 |>)] [] init_rs [] 20 [] [] 0.
+
+(** what the device looks like once its part has left at 36 (both slots empty, the clock (re)started without reset) *)
+Definition emptied36 (w : fw) : fw := updd (updd w 5 t_clear_part) 5 (dev_set_wait 36 true false).
+
+Example C08_refuted_D9 :
+  d_wait_since (getd (stamp_v0 32 wD9 5) 5) = Some 32 /\ d_wait_since (getd (wait_if_empty 32 wD9 5) 5) = None /\
+  sorted_down 5 (emptied36 (stamp_v0 32 wD9 5)) 1 = [5; 6] /\ sorted_down 5 (emptied36 (wait_if_empty 32 wD9 5)) 1 = [6; 5].
+Proof. vm_compute. repeat split; reflexivity. Qed.
